@@ -103,6 +103,7 @@ func pred(f, x int) bool {
 		return mix(x, 0, 6)%4 == 0 // mostly false
 	}
 }
+
 // mkPred: one predicate instance per tree node and evaluation. Families 7 and 8 have memory (first occurrence of a
 // residue class, every third call): their answer depends on what they were asked before, so list semantics is the
 // sequential evaluation, once per element of the node's input, in order - which is what a filter over a list does.
@@ -502,10 +503,12 @@ type leafRef struct {
 }
 
 type buildCtx struct {
-	log    argset
-	leaves []leafRef
-	calls  int
-	budget int
+	stopped   bool     // the ForEach visitor has returned its error
+	afterStop [][3]int // callbacks of the expression invoked after that
+	log       argset
+	leaves    []leafRef
+	calls     int
+	budget    int
 }
 
 type runaway struct{ calls int }
@@ -514,6 +517,9 @@ type runaway struct{ calls int }
 // "the library loops forever": list semantics needs a bounded number of
 // callback invocations for the tree at hand.
 func (b *buildCtx) see(id, x, y int) {
+	if b.stopped {
+		b.afterStop = append(b.afterStop, [3]int{id, x, y})
+	}
 	b.log[[3]int{id, x, y}] = struct{}{}
 	b.calls++
 	if b.budget > 0 && b.calls > b.budget {
@@ -745,6 +751,7 @@ func runTree(t *node) {
 				err = pair.ForEach(b.buildP(t), func(k, v int) error {
 					visP = append(visP, kv{k, v})
 					if len(visP) == j+1 {
+						b.stopped = true
 						return boom
 					}
 					if len(visP) > n+8 {
@@ -756,6 +763,7 @@ func runTree(t *node) {
 				err = seq.ForEach(b.buildS(t), func(x int) error {
 					visS = append(visS, x)
 					if len(visS) == j+1 {
+						b.stopped = true
 						return boom
 					}
 					if len(visS) > n+8 {
@@ -775,6 +783,11 @@ func runTree(t *node) {
 		}
 		if err != wantErr || !slices.Equal(visS, wantS[:min(upto, len(wantS))]) || !slices.Equal(visP, wantP[:min(upto, len(wantP))]) {
 			rec.Violate(site+"foreach", fmt.Sprintf("visitor failing at visit %d: visited %v%v err=%v; want prefix of length %d of %v%v err=%v", j, visS, visP, err, upto, wantS, wantP, wantErr), c)
+			break
+		}
+		if len(b.afterStop) > 0 {
+			a := b.afterStop[0]
+			rec.Violate(site+"foreach/continues", fmt.Sprintf("visitor failed at visit %d, yet ForEach went on evaluating the expression: callback of node #%d was invoked with (%d,%d) after the error was returned", j, a[0], a[1], a[2]), c)
 			break
 		}
 		checkArgs(b, "ForEach")
